@@ -5,6 +5,8 @@ For each mN: builds pristine + mutated tree, runs the unit tests on the mutated 
 Writes /tmp/mut_<ID>_out/verify.json.  Uses -j6."""
 import glob, json, os, re, subprocess, sys
 
+PFX = os.environ.get("MUT_PREFIX", "mut_")
+
 def sh(cmd, cwd=None, timeout=1800):
     r = subprocess.run(cmd, shell=True, cwd=cwd, stdout=subprocess.PIPE, stderr=subprocess.STDOUT, text=True, timeout=timeout)
     return r.returncode, r.stdout
@@ -15,8 +17,8 @@ def build(wt):
 
 def main():
     for ident in sys.argv[1:]:
-        wt = "/tmp/mut_%s" % ident
-        outd = "/tmp/mut_%s_out" % ident
+        wt = "/tmp/%s%s" % (PFX, ident)
+        outd = "/tmp/%s%s_out" % (PFX, ident)
         res = {}
         sh("git checkout -- . && git clean -fdq -e _build", cwd=wt)
         rc, out = build(wt)
